@@ -91,7 +91,7 @@ def generated_cases(culture):
         text = exprs.widen(x['text'], mask) if wide else x['text']
         cs = CARRIERS[culture]
         return {'culture': culture, 'q': cs[ci % len(cs)].format(text), 'src': 'generated', 'family': x['family']}
-    return st.builds(mk, exprs.expressions(culture), st.integers(0, 9), st.integers(0, 2 ** 30 - 1), st.sampled_from([False, False, True]))
+    return st.builds(mk, exprs.expressions(culture, small_numbers=(culture == 'fr-fr')), st.integers(0, 9), st.integers(0, 2 ** 30 - 1), st.sampled_from([False, False, True]))
 
 
 _WORDS = {}
